@@ -94,6 +94,9 @@ DROP_ATTR_PATHS = {"derive", "bean", "serde", "rtype", "prost", "binrw", "allow"
                    "brw", "async_trait", "cfg_attr", "must_use", "deprecated"}
 
 
+STRUCTURAL = set()
+
+
 def strip_attrs(data, item, tlog, keep_derive_copy=True):
     """return item text with proc-macro / derive attributes removed (T1, T2)"""
     s, e = item["start"], item["end"]
@@ -109,6 +112,8 @@ def strip_attrs(data, item, tlog, keep_derive_copy=True):
                 keep = [n for n in names if n in ("Copy", "PartialEq", "Eq", "Hash", "PartialOrd", "Ord")]
                 if "Copy" in names and "Clone" in names:
                     keep.append("Clone")
+                if "PartialEq" in keep and "Eq" in keep and item["path"].split("::")[-1] in STRUCTURAL:   # unit.toml: structural = [...]
+                    keep.append("Structural")   # Verus: exec `==` of a derived PartialEq+Eq type is structural equality
                 rep = ("#[derive(%s)]" % ", ".join(keep)) if keep else ""
                 cuts.append((a["start"] - s, a["end"] - s, rep.encode()))
                 dropped = [n for n in names if n not in keep]
@@ -520,6 +525,8 @@ def assemble_unit(unit_dir, repo=None, canary=False):
                     C.sections[item] = dict(OC.sections[item])
                 if item in OC.flags:
                     C.flags[item] = dict(OC.flags[item])
+    STRUCTURAL.clear()
+    STRUCTURAL.update(unit.get("structural", []))
     for item in unit.get("assumed", []):
         if item not in wanted:
             raise Undecided("unit.toml: assumed item %s is not listed in a source" % item)
